@@ -2,6 +2,7 @@ import M3d.Model.C2F
 import M3d.Lemmas.Partition
 import Mathlib.Tactic.Linarith
 import Mathlib.Tactic.Positivity
+import Mathlib.Tactic.NormNum
 import Mathlib.Algebra.Order.Field.Basic
 /-!
 Lemmas for `M3d.Model.C2F` (property C12, coarse-to-fine): blocks reached by `Pieces` are sub-blocks
@@ -118,6 +119,30 @@ theorem pieces_sub (mv : Nat) (hpos : 0 < mv) (g : Block → Bool) :
         · exact fun c hc => (Block.split_sub b c).1 (ih _ (hv ▸ hl.1) b.split.1 rfl q h c hc)
         · exact fun c hc => (Block.split_sub b c).2 (ih _ (hv ▸ hl.2) b.split.2 rfl q h c hc)
 
+/-! ### configurations are bounded -/
+
+theorem cfg_fold_lt (p : Nat → Bool) :
+    ∀ n, (List.range n).foldl (fun acc c => if p c then acc + 2 ^ c else acc) 0 < 2 ^ n
+  | 0 => by simp
+  | n + 1 => by
+    rw [List.range_succ, List.foldl_append]
+    have ih := cfg_fold_lt p n
+    have e : 2 ^ (n + 1) = 2 ^ n * 2 := Nat.pow_succ 2 n
+    simp only [List.foldl]
+    generalize 2 ^ (n + 1) = u at *
+    generalize 2 ^ n = t at *
+    split <;> omega
+
+theorem cellCfg2_lt (lab : Nat → Nat → Bool) (x y : Nat) : cellCfg2 lab x y < 16 :=
+  cfg_fold_lt (fun c => lab (x + cornerOff c 0) (y + cornerOff c 1)) 4
+
+theorem cellCfg_lt (lab : Nat → Nat → Nat → Bool) (x y z : Nat) : cellCfg lab x y z < 256 :=
+  cfg_fold_lt (fun c => lab (x + cornerOff c 0) (y + cornerOff c 1) (z + cornerOff c 2)) 8
+
+theorem cornerOff_le (c k : Nat) : cornerOff c k ≤ 1 := by
+  unfold cornerOff bit
+  omega
+
 /-! ### the geometry of `nearAxis` -/
 
 section geom
@@ -165,6 +190,29 @@ theorem block_kept_axis (fmin δ ε M v : K) (hδ : 0 ≤ δ) (hε : 0 ≤ ε) (
   have := cover_axis (fmin + x0 * δ - ε) (fmin + x1 * δ + ε) (fmin + i * δ) _ v δ ((m : K) * δ) (R * δ) M
     (by linarith) (by linarith) n1 n2 hv1 hv2 (by linarith)
   constructor <;> linarith [this.1, this.2]
+
+/-- The searched vertex never leaves its lattice edge: whatever the solid answers, the result of the
+bisection lies between the two ends of the edge (so a coarse-mesh vertex stays in the closed box of
+every coarse cell that edge belongs to). -/
+theorem searchAxis_mem (inside : K → Bool) (lo hi : K) :
+    ∀ (n : Nat) (f t : K), lo ≤ f → f ≤ hi → lo ≤ t → t ≤ hi →
+      lo ≤ searchAxis inside n f t ∧ searchAxis inside n f t ≤ hi := by
+  intro n
+  induction n with
+  | zero =>
+    intro f t h1 h2 h3 h4
+    simp only [searchAxis]
+    constructor
+    · rw [le_div_iff₀ (by norm_num : (0 : K) < 2)]; linarith
+    · rw [div_le_iff₀ (by norm_num : (0 : K) < 2)]; linarith
+  | succ n ih =>
+    intro f t h1 h2 h3 h4
+    have m1 : lo ≤ (f + t) / 2 := by rw [le_div_iff₀ (by norm_num : (0 : K) < 2)]; linarith
+    have m2 : (f + t) / 2 ≤ hi := by rw [div_le_iff₀ (by norm_num : (0 : K) < 2)]; linarith
+    simp only [searchAxis]
+    split
+    · exact ih f _ h1 h2 m1 m2
+    · exact ih _ t m1 m2 h3 h4
 
 end geom
 
